@@ -143,7 +143,7 @@ def desc_strategy():
             ext = draw(st.integers(0, 9)) == 0
             if ext:
                 tgt = {"ext": draw(st.sampled_from(["http://a.b/c?d=1&e=2", "file:///C:/x y.pptx", "mailto:x@y.z",
-                                                    "../rel/looking.xml", "#frag"]))}
+                                                    "../rel/looking.xml", "#frag", "", " "]))}
             else:
                 tgt = draw(st.integers(0, n - 1))
             k = draw(st.integers(0, 14))
